@@ -18,6 +18,10 @@ FORBIDDEN = [
 ]
 
 
+def verif_dir():
+    return os.path.dirname(os.path.dirname(os.path.abspath(__file__)))
+
+
 def go_env():
     env = dict(os.environ)
     env.update({"GOFLAGS": "-mod=mod", "GOPROXY": "off", "GOSUMDB": "off", "GOTOOLCHAIN": "local"})
@@ -167,7 +171,7 @@ REGIDX = {"rax": 3, "rbx": 4, "rcx": 5, "rdx": 6, "rsi": 7, "rdi": 8, "rbp": 9, 
 MEMOP = re.compile(r"(%[a-z]s:)?(-?0x[0-9a-f]+|-?[0-9]+)?\((%[a-z0-9]+)?(?:,(%[a-z0-9]+)(?:,([1248]))?)?\)")
 
 
-def mem_operands(binp, rngs):
+def mem_operands(binp, rngs, dis_path=None):
     """pc -> [(disp, base_index, index_index, scale)] for the register-addressed memory operands of the Go functions
     in rngs (binutils objdump, AT&T syntax); lea / nop forms and segment-relative operands are not accesses."""
     ops = {}
@@ -175,6 +179,9 @@ def mem_operands(binp, rngs):
         if kind != "g":
             continue
         od = subprocess.run(["objdump", "-d", "--no-show-raw-insn", "--start-address=0x%x" % lo, "--stop-address=0x%x" % hi, binp], capture_output=True, text=True).stdout
+        if dis_path:
+            with open(dis_path, "a") as fh:
+                fh.write(od)
         for line in od.splitlines():
             m = re.match(r"^\s*([0-9a-f]+):\s+(\S+)\s*(.*)$", line)
             if not m:
@@ -217,7 +224,10 @@ def run_steps(out, tier, seed, workdir, vt, binp, nm, mark):
         out.inconclusive.append("paths/steps: only %d library functions of package sm4 found in the binary" % len(rngs))
         return
     los = [r[0] for r in rngs]
-    memops = mem_operands(binp, rngs)
+    dis_path = os.path.join(workdir, "steps_go.dis")
+    if os.path.exists(dis_path):
+        os.remove(dis_path)
+    memops = mem_operands(binp, rngs, dis_path)
     st_lo = st_hi = None
     for line in nm.splitlines():
         f = line.split()
@@ -290,6 +300,23 @@ def run_steps(out, tier, seed, workdir, vt, binp, nm, mark):
                                     nstat += 1
                 elif kind == 4 and cur in seqs:
                     seqs[cur].append(-1)
+    # ---- taint interpretation of the same trace (all values of the declared secret bytes at once)
+    try:
+        vc = os.path.join(workdir, "vtcheck_steps")
+        subprocess.check_call(["go", "build", "-o", vc, "."], cwd=os.path.join(verif_dir(), "tools", "vtcheck"), env=go_env())
+        rep = os.path.join(workdir, "steps_taint_report.jsonl")
+        if os.path.exists(rep):
+            os.remove(rep)
+        rc2 = subprocess.call([vc, "-mode", "steps", "-trace", trace, "-plan", plan, "-dis", dis_path, "-prop", "C09", "-out", rep, "-check", "public-steps-taint"])
+        if rc2 != 0 or not os.path.exists(rep):
+            out.inconclusive.append("paths/steps: taint interpreter failed (rc=%s)" % rc2)
+        else:
+            for line in open(rep):
+                r = json.loads(line)
+                r["evaluations"] = 0  # the operations are counted once, by the sequence comparison
+                out.merge_report(r)
+    except Exception as e:
+        out.inconclusive.append("paths/steps: taint interpreter could not run: %s" % e)
     os.remove(trace)
     # The runtime re-runs a function's prologue when its stack check sends it to runtime.morestack (stack growth,
     # and - far more often under a tracer - a cooperative preemption request). That detour depends on the scheduler,
